@@ -165,3 +165,16 @@ PROPS["C07"] = dict(
         R("C07.no_idle_teardown", "kechan", "TestC07NoIdleTeardown", 8, 300, shrink=5, quick=dict(checks=8, shards=4, timeout=600)),
     ],
 )
+
+PROPS["C01"] = dict(
+    level="exploration",
+    technique="property-based testing (rapid): generated swarm nestings x workloads against a sent/received ledger (round-trip oracle)",
+    level_text="Stack specs are generated at run time (type-erased nesting of every layer kind), workloads vary length at every layer boundary, content, iovec presentation, concurrency and buffer reuse; every delivery is checked byte for byte against the ledger and for source/destination truth. Holds on everything generated.",
+    level_note="Loss is allowed (Tell is best effort); duplication is not judged. Concurrency is real goroutines, not an owned schedule. SSH stacks are covered by C04/C11 harness stand-alone, not by the nesting generator.",
+    design_ref="4/C01",
+    assumptions=["loss is permitted, duplication is not judged by C01"],
+    subs=[
+        R("C01.mem_stacks", "swarms", "TestC01Mem", 300, 12000, shrink=10, quick=dict(checks=300, shards=4, timeout=600)),
+        R("C01.secure_and_udp_stacks", "swarms", "TestC01Net", 40, 1500, shrink=10, quick=dict(checks=40, shards=4, timeout=600)),
+    ],
+)
